@@ -178,6 +178,7 @@ K_BPMS == <<66, 80, 77, 83>>
 K_DELAYS == <<68, 69, 76, 65, 89, 83>>
 K_WARPS == <<87, 65, 82, 80, 83>>
 TimingText(o, name) == LET k == Sel(o.fmt, o.items, name) IN IF MHas(o.items, k) THEN MGet(o.items, k) ELSE None
+ReadTimingInDomain(o, name) == ~ParseEvents(TimingText(o, name)).big
 ReadTiming(name, res) ==    \* res: [st, evs <<[n, d, m, e]>>] as TimingData(simfile) exposes the list `name`
   /\ LET p == ParseEvents(TimingText(obj, name)) IN
      IF ~p.ok THEN res.st # "ok"
@@ -198,8 +199,8 @@ KeyOf(n) == (CHOOSE p \in KeyTable : p[1] = n)[2]
 K_OFFSET == KeyOf("OFFSET")
 ChartTimingNames == <<"BPMS", "STOPS", "DELAYS", "TIMESIGNATURES", "TICKCOUNTS", "COMBOS", "WARPS", "SPEEDS", "SCROLLS", "FAKES", "LABELS">>
 Truthy(v) == ~IsNone(v) /\ v # <<>>
-VersionDec(o) == LET v == AttrValue(o, K_VERSION) IN IF Truthy(v) THEN ParseDecimal(v) ELSE [ok |-> TRUE, m |-> 0, e |-> 0]
-VersionReadable(o) == VersionDec(o).ok /\ VersionDec(o).e <= 6 /\ VersionDec(o).m < 1000
+VersionDec(o) == LET v == AttrValue(o, K_VERSION) IN IF Truthy(v) THEN ParseDecimal(v) ELSE [ok |-> TRUE, m |-> 0, e |-> 0, big |-> FALSE]
+VersionReadable(o) == VersionDec(o).ok /\ ~VersionDec(o).big /\ VersionDec(o).e <= 6 /\ VersionDec(o).m < 1000 /\ VersionDec(o).m >= 0
 SplitVersion(o) == LET d == VersionDec(o) IN d.m * 10 >= 7 * Pow10(d.e)
 (* the chart is the source iff: SSC simfile, SSC chart, version >= 0.7, and one of the eleven timing properties is non-empty *)
 UsesChart(o, j) == /\ o.fmt = "ssc" /\ j # 0 /\ SplitVersion(o)
@@ -209,17 +210,18 @@ SourceText(o, j, name) ==
   IF UsesChart(o, j) THEN (IF MHas(o.charts[j], name) THEN MGet(o.charts[j], name) ELSE None)
   ELSE IF name \in {K_WARPS, K_OFFSET, K_DELAYS} THEN (IF MHas(o.items, name) THEN MGet(o.items, name) ELSE None)
   ELSE AttrValue(o, name)         \* (BPMS, STOPS: through the attribute, i.e. FREEZES on an SM simfile without STOPS)
-SmoothBpm(v) == v.m > 0 /\ v.e <= 3 /\ v.m < 100000 /\ (640 * Pow10(v.e)) % v.m = 0
+(* (bounds keep every intermediate below 2^31: a q lasts at most 64 U, a pause or offset at most ~10 s, notes lie before beat 1000) *)
 BpmU(v) == (640 * Pow10(v.e)) \div v.m
-SmoothSec(v) == v.e <= 6 /\ v.m > -7000 /\ v.m < 7000 /\ (v.m * UPS) % (2 * Pow10(v.e)) = 0
+SmoothBpm(v) == v.m > 0 /\ v.e <= 3 /\ v.m < 100000 /\ (640 * Pow10(v.e)) % v.m = 0 /\ BpmU(v) <= 64
 SecU(v) == (v.m * UPS) \div Pow10(v.e)
+SmoothSec(v) == v.e <= 6 /\ v.m > -7000 /\ v.m < 7000 /\ (v.m * UPS) % (2 * Pow10(v.e)) = 0 /\ SecU(v) <= 3000000 /\ SecU(v) >= -3000000
 SmoothLen(v) == v.m > 0 /\ v.e <= 3 /\ v.m < 100000
 (* the five fields as the chosen source's texts parse (Beat.tla) *)
 TPB(o, j) == ParseEvents(SourceText(o, j, K_BPMS))
 TPS(o, j) == ParseEvents(SourceText(o, j, K_STOPS))
 TPD(o, j) == ParseEvents(SourceText(o, j, K_DELAYS))
 TPW(o, j) == ParseEvents(SourceText(o, j, K_WARPS))
-TPO(o, j) == LET ot == SourceText(o, j, K_OFFSET) IN IF Truthy(ot) THEN ParseDecimal(ot) ELSE [ok |-> TRUE, m |-> 0, e |-> 0]
+TPO(o, j) == LET ot == SourceText(o, j, K_OFFSET) IN IF Truthy(ot) THEN ParseDecimal(ot) ELSE [ok |-> TRUE, m |-> 0, e |-> 0, big |-> FALSE]
 (* the timing data in Timing.tla's units (only evaluated inside the sub-domain below) *)
 TimingTD(o, j) ==
   LET pb == TPB(o, j)  ps == TPS(o, j)  pd == TPD(o, j)  pw == TPW(o, j) IN
@@ -234,6 +236,7 @@ TimingOK(o, j) ==
       inc(evs) == \A k \in 1..(Len(evs) - 1) : evs[k].k < evs[k + 1].k
   IN /\ VersionReadable(o)
      /\ pb.ok /\ ps.ok /\ pd.ok /\ pw.ok /\ po.ok
+     /\ ~pb.big /\ ~ps.big /\ ~pd.big /\ ~pw.big /\ ~po.big
      /\ pb.evs # <<>> /\ pb.evs[1].k = 0
      /\ \A i \in DOMAIN pb.evs : SmoothBpm(pb.evs[i].v) /\ pb.evs[i].k >= 0 /\ pb.evs[i].k < 3000
      /\ \A i \in DOMAIN ps.evs : SmoothSec(ps.evs[i].v) /\ ps.evs[i].v.m > 0 /\ ps.evs[i].k >= 0 /\ ps.evs[i].k < 3000
@@ -242,7 +245,7 @@ TimingOK(o, j) ==
      /\ SmoothSec(po)
      /\ inc(pb.evs) /\ inc(ps.evs) /\ inc(pd.evs) /\ inc(pw.evs)
 NoteQ(x) == (x.n * QPB) \div x.d
-NotesTimable(ns) == \A k \in DOMAIN ns : QPB % ns[k].d = 0 /\ ns[k].n < 3000
+NotesTimable(ns) == \A k \in DOMAIN ns : QPB % ns[k].d = 0 /\ ns[k].n < 1000 * ns[k].d
 TimeNotesInDomain(o, j) ==
   /\ j \in DOMAIN o.charts /\ (o.fmt = "ssc" => ChartHasNotes(o.charts[j]))
   /\ TimingOK(o, j) /\ NotesTimable(Decode(ChartNotesText(o, j)))
